@@ -836,6 +836,8 @@ fn history(family: &str, seed: u64, idx: usize, thorough: bool, out: &mut impl W
                         }
                     }
                     c.s.trace.push(json!({"ev":"late_join","peer":id,"ok":ok}));
+                    let d = c.drain(80);
+                    c.s.trace.push(json!({"ev":"drain","quiescent":d.0,"rounds":d.1}));
                     epochs(&mut c, 1);
                 }
             }
